@@ -3,6 +3,7 @@ use core::fmt;
 use cairo_lang_eq_solver::Expr;
 use cairo_lang_sierra::ids::{ConcreteLibfuncId, FunctionId};
 use cairo_lang_sierra::program::{Program, StatementIdx};
+use cairo_lang_utils::ordered_hash_set::OrderedHashSet;
 use itertools::zip_eq;
 
 use crate::{ApChange, ApChangeError};
@@ -54,13 +55,19 @@ struct StatementInfo {
 
 /// Generates a set of equations from a program, and a function to extract cost expressions from a
 /// library function id.
+///
+/// A call to a function in `unknown_ap_change_funcs` changes `ap` in an unknown way. Additionally
+/// returns the functions found to have a return statement reached with an unknown ap change - a
+/// call to such a function must not be given an ap change variable.
 pub fn generate_equations<
     GetApChange: Fn(StatementIdx, &ConcreteLibfuncId) -> Result<Vec<Effects>, ApChangeError>,
 >(
     program: &Program,
+    unknown_ap_change_funcs: &OrderedHashSet<FunctionId>,
     get_effects: GetApChange,
-) -> Result<Vec<ApChangeExpr>, ApChangeError> {
+) -> Result<(Vec<ApChangeExpr>, OrderedHashSet<FunctionId>), ApChangeError> {
     let mut generator = EquationGenerator::new(program.statements.len());
+    let mut found_unknown_ap_change_funcs = OrderedHashSet::default();
     for func in &program.funcs {
         generator.set_or_add_constraint(
             func.entry_point,
@@ -76,6 +83,9 @@ pub fn generate_equations<
         match &program.get_statement(idx).unwrap() {
             cairo_lang_sierra::program::Statement::Return(_) => {
                 if let ChangeBase::FunctionStart(func_id) = &base_info.base {
+                    if base_info.past_ap_change.is_none() {
+                        found_unknown_ap_change_funcs.insert(func_id.clone());
+                    }
                     generator.set_or_add_constraint(
                         idx,
                         StatementInfo {
@@ -102,9 +112,16 @@ pub fn generate_equations<
                         ApChange::FromMetadata => {
                             Some(Expr::from_var(Var::LibfuncImplicitApChangeVariable(idx)))
                         }
-                        ApChange::FunctionCall(func_id) => Some(
-                            Expr::from_var(Var::FunctionApChange(func_id)) + Expr::from_const(2),
-                        ),
+                        ApChange::FunctionCall(func_id) => {
+                            if unknown_ap_change_funcs.contains(&func_id) {
+                                None
+                            } else {
+                                Some(
+                                    Expr::from_var(Var::FunctionApChange(func_id))
+                                        + Expr::from_const(2),
+                                )
+                            }
+                        }
                         ApChange::FinalizeLocals => {
                             Some(Expr::from_const(base_info.past_locals as i32))
                         }
@@ -144,7 +161,7 @@ pub fn generate_equations<
             }
         }
     }
-    Ok(generator.equations)
+    Ok((generator.equations, found_unknown_ap_change_funcs))
 }
 
 /// Helper to generate the equations for calculating gas variables.
